@@ -818,6 +818,14 @@ def translate_slice(spec, tree):
                     touched.add(c.func.value.id)
                 if nm in MUTATORS and touched & params:
                     fail(s, 'an input of the slice is mutated inside the sliced region')
+    # `x -= e` on an input ARRAY updates the caller's object in place; the functional reading of the slice would hide that
+    # effect, so it is refused unless the registry states that the input is a fresh array at that point
+    arr_params = {name for name, ty in spec['inputs'].values() if ty in ('mat', 'vecF', 'col', 'row', 'listZ')}
+    for s in seq:
+        for c in ast.walk(s):
+            if isinstance(c, ast.AugAssign) and isinstance(c.target, ast.Name) and c.target.id in arr_params \
+                    and c.target.id not in spec.get('inplace_ok', ()):
+                fail(c, 'in-place update of an input array (would modify the object the caller passed in)')
     # statements the slice relies on without translating them (e.g. where an input comes from)
     have = [ast.unparse(s) for s in full_seq]
     for want in spec.get('expected_stmts', []):
